@@ -439,6 +439,8 @@ def load_subscript(it, obj, k):
         raise Undecided(f".{obj.name}[{k!r}]")
     if isinstance(obj, BoundMethod) and obj.name in ("iat", "iloc", "at", "loc") and isinstance(obj.obj, Vec):
         v = obj.obj
+        if isinstance(k, slice) and obj.name == "iloc":
+            return Vec(v.v[_int_slice(k, len(v.v))], aligned=v.aligned)
         if isinstance(k, int):
             if not v.v:
                 raise Raised("IndexError")
@@ -471,7 +473,7 @@ def load_subscript(it, obj, k):
         if isinstance(k, Vec):
             return _maskload(obj, k)
         if isinstance(k, slice):
-            return Vec(obj.v[k])
+            return Vec(obj.v[_int_slice(k, len(obj.v))])
         if isinstance(k, (list, tuple)) and all(isinstance(i, int) and not isinstance(i, bool) for i in k):
             return Vec([obj.v[i] for i in k])
         raise Undecided(f"vector index {k!r}")
@@ -503,6 +505,19 @@ def load_subscript(it, obj, k):
     if isinstance(obj, Module):
         return obj                                  # typing subscripts: Optional[int] ...
     raise Undecided(f"subscript of {type(obj).__name__}")
+
+
+def _int_slice(k, n):
+    """slice bounds as plain ints: a table-size value stands for the vector's own length, constant terms for their value"""
+    def conv(x):
+        if isinstance(x, NRows):
+            return n
+        if isinstance(x, Term) and x.is_const() and x.cval().denominator == 1:
+            return int(x.cval())
+        if x is None or (isinstance(x, int) and not isinstance(x, bool)):
+            return x
+        raise Undecided(f"slice bound {x!r}")
+    return slice(conv(k.start), conv(k.stop), conv(k.step))
 
 
 def df_select(d, mask):
@@ -1083,6 +1098,8 @@ def ext_call(it, dotted, args, kw):
         return Opaque(name)
     if name in ("np.isnan", "pd.isnull", "pd.isna", "math.isnan"):
         return lift1(is_nan, args[0])
+    if name == "np.flatnonzero" and args and isinstance(args[0], Vec) and all(isinstance(x, bool) for x in args[0].v):
+        return Vec([i for i, x in enumerate(args[0].v) if x])
     if name == "np.nonzero" and args and isinstance(args[0], Vec):
         return (MaskIdx(args[0]),)
     if name in ("np.isfinite", "math.isfinite"):
